@@ -65,6 +65,17 @@ def closure_rt(space, world, closure_fn, parent_fn, now_expr_parent=None):
     def m(e):
         if e == ("param", 2):
             return LINK
+        if e[0] == "upcap":
+            # capture i of the closure captured as upvar k
+            v = ups.get(e[1])
+            while isinstance(v, tuple) and v and v[0] in ("old", "deref"):
+                v = v[1]
+            if isinstance(v, tuple) and v and v[0] == "agg" and v[1] == "closure" and e[2] < len(v[3]):
+                c = v[3][e[2]]
+                if now_expr_parent is not None and c == now_expr_parent:
+                    return NOW
+                return ("sym", "captured:%r" % (c,))
+            return ("sym", "captured:%r" % (e,))
         if e[0] == "upvar":
             v = ups.get(e[1])
             if v is not None:
